@@ -478,6 +478,47 @@ func run(r *Rng, tier string, n int) {
 			}
 		}
 	}
+	// a Msg value that is REUSED for successive Unpack calls: what the second call returns depends on its own
+	// input only (records all lie inside THIS input): same result as with a fresh Msg
+	{
+		var inputs [][]byte
+		for i, w := range cor {
+			if i%7 == 0 && len(inputs) < 24 {
+				inputs = append(inputs, w)
+			}
+		}
+		inputs = append(inputs, hdr(0, 0), hdr(1, 0), hdr(0, 1), append(hdr(1, 0), 0, 0, 1, 0, 1), append(hdr(1, 0), 0), []byte{}, hdr(0, 0)[:11])
+		if len(cor) > 0 {
+			inputs = append(inputs, cor[0][:12], cor[0][:13])
+		}
+		for i, first := range inputs {
+			for j, second := range inputs {
+				if (i+j)%3 != 0 && len(second) > 13 {
+					continue
+				}
+				var reused, fresh dns.Msg
+				_ = Protect(func() string { _ = reused.Unpack(append([]byte{}, first...)); return "" })
+				r1 := Protect(func() string {
+					if err := reused.Unpack(append([]byte{}, second...)); err != nil {
+						return "err"
+					}
+					t, _ := MsgText(&reused)
+					return "ok:" + t
+				})
+				r2 := Protect(func() string {
+					if err := fresh.Unpack(append([]byte{}, second...)); err != nil {
+						return "err"
+					}
+					t, _ := MsgText(&fresh)
+					return "ok:" + t
+				})
+				st["reused_msg_checked"]++
+				if r1 != r2 {
+					Viol("C02/reused-msg-keeps-earlier-records", "Unpack into a Msg that held another message gives a different result than Unpack into a fresh Msg", map[string]string{"first": Hx(first), "wire": Hx(second), "reused": r1, "fresh": r2})
+				}
+			}
+		}
+	}
 	// random octets behind a plausible header
 	nr := 600
 	if thorough {
